@@ -1,7 +1,7 @@
 """Helpers shared by the sidecar contracts: symbolic inputs and structural comparisons."""
 import z3
 
-from pyvc.values import SV, Seq, SymSeq, NDArr, PDict, SymDict, Opaque, Inf, NT
+from pyvc.values import SV, Seq, SymSeq, NDArr, PDict, SymDict, Opaque, Inf, NT, OptVal
 from pyvc.interp import stamp
 from pyvc.ctx import Unsupported, PathAbort
 
@@ -62,9 +62,9 @@ def sym_fcs(I, name, N, D, dtype='float', range_never_none=True, distinct_names=
 
     def opt(nonef, mk):
         def fn(I_, i, nonef=nonef, mk=mk):
-            if nonef is not None and I_.ctx.branch(nonef(i)):
-                return None
-            return mk(I_, i)
+            if nonef is None:
+                return mk(I_, i)
+            return OptVal(nonef(i), mk(I_, i))     # deferred: no fork unless the entry is inspected
         return fn
 
     def rng_cell(I_, i):
@@ -97,6 +97,7 @@ def sym_fcs(I, name, N, D, dtype='float', range_never_none=True, distinct_names=
         '_range': tup('list', opt(None if range_never_none else m.rng_none, rng_cell)),
         '_resolution': tup('tuple', lambda I_, i: SV(m.res(i), 'int')),
     }
+    a.attrs['_range'].elem_token = ('range-cells', name)
     for v in a.attrs.values():
         if hasattr(v, 'birth'):
             v.birth = a.birth
@@ -117,6 +118,15 @@ PER_CHANNEL = ['_channels', '_amplification_type', '_detector_voltage', '_amplif
 def struct_eq(I, a, b, depth=0):
     """z3 Bool (or python bool): a and b are structurally equal values (identity ignored).
     Symbolic sequences are compared at a fresh index (sound for goals: the index is arbitrary)."""
+    if isinstance(a, OptVal) or isinstance(b, OptVal):
+        na = a.isnone if isinstance(a, OptVal) else z3.BoolVal(a is None)
+        nb = b.isnone if isinstance(b, OptVal) else z3.BoolVal(b is None)
+        va = a.val if isinstance(a, OptVal) else a
+        vb = b.val if isinstance(b, OptVal) else b
+        if va is None or vb is None:
+            return z3.And(na, nb) if (va is None and vb is None) else z3.And(na == nb, na)
+        inner = struct_eq(I, va, vb, depth + 1)
+        return z3.And(na == nb, z3.Implies(z3.Not(na), zb(inner)))
     if a is None or b is None:
         return a is None and b is None
     if isinstance(a, Opaque) or isinstance(b, Opaque):
@@ -246,9 +256,12 @@ def array_witness(model, arr, cap=40):
     shape = [mval(model, s) for s in arr.shape]
     if any((not isinstance(s, int)) or s > cap for s in shape):
         return None, shape
+    f = getattr(arr, 'ufn', None)       # the contents as handed in
+    if f is None:
+        f = arr.fn
     if len(shape) == 1:
-        return [mval(model, arr.fn(z3.IntVal(i))) for i in range(shape[0])], shape
-    return [[mval(model, arr.fn(z3.IntVal(i), z3.IntVal(j))) for j in range(shape[1])] for i in range(shape[0])], shape
+        return [mval(model, f(z3.IntVal(i))) for i in range(shape[0])], shape
+    return [[mval(model, f(z3.IntVal(i), z3.IntVal(j))) for j in range(shape[1])] for i in range(shape[0])], shape
 
 
 def meta_witness(model, data, D):
